@@ -1084,6 +1084,7 @@ def gen_eig_o(rng, n):
         shape = rng.choice([[], [], [2], [3], [2, 2]])
         cnt = int(np.prod(shape)) if shape else 1
         kind = rng.choice(["real_spectrum", "real_spectrum", "generic"])
+        sparse = kind == "real_spectrum" and rng.random() < 0.3
         mats, lams = [], []
         for _ in range(cnt):
             while True:
@@ -1113,11 +1114,33 @@ def gen_eig_o(rng, n):
                     Jd[0, 1] = 1.0
                     Jd[1, 1] = Jd[0, 0] + 1e-4
                     g = np.linalg.inv(Rm + 3 * np.eye(m)) @ Jd @ (Rm + 3 * np.eye(m))
+            if kind == "real_spectrum" and sparse:
+                # chart-preserving / block-triangular conjugators (wave 6): eigenvectors with EXACTLY zero coordinates (points at
+                # infinity of an affine chart), all other coordinates of one sign
+                g = np.triu(np.abs(g.real)) + np.eye(m) if rng.random() < 0.5 else np.tril(-np.abs(g.real)) - np.eye(m)
+                if rng.random() < 0.5:
+                    g = g[::-1, ::-1].copy()
             if kind == "real_spectrum":
                 lam = np.array(sorted(rng.sample(range(-9, 10), m))) / 2.0 + 0.25
                 if rng.random() < 0.3:
                     lam[1] = lam[0] * (1 + rng.choice([-1, 1]) * 10 ** rng.uniform(-3.7, -2.0))   # close, but distinct
                 M = np.linalg.inv(g) @ np.diag(lam) @ g
+                if sparse and m >= 3 and rng.random() < 0.7:
+                    # dense affine block: [[lam0, 0], [t, A]] or its transpose, A = h^-1 diag(lam[1:]) h dense — the shape of
+                    # projective.affine_linear_map / affine_translation outputs; eigenvectors at infinity have chart coordinate 0
+                    while True:
+                        h = np.array([[rng.gauss(0, 1) for _ in range(m - 1)] for _ in range(m - 1)])
+                        if np.linalg.cond(h) < 50:
+                            break
+                    Ab = np.linalg.inv(h) @ np.diag(lam[1:]) @ h
+                    M = np.zeros((m, m))
+                    M[0, 0] = lam[0]
+                    M[1:, 1:] = Ab
+                    tvec = np.array([rng.gauss(0, 1) for _ in range(m - 1)]) * rng.choice([0.0, 1.0, 1.0])
+                    if rng.random() < 0.5:
+                        M[1:, 0] = tvec
+                    else:
+                        M[0, 1:] = tvec
             else:
                 M = g
                 lam = np.linalg.eigvals(M.T)
@@ -1197,7 +1220,7 @@ def judge_eig_o(inp, obs, lr):
             return {"expected": "GeometryError (no such eigenvalue)", "observed": obs, "tags": dict(tags0, site="eigenvector_error")}
         if not obs["shape_ok"]:
             return {"expected": "one vector per unit", "observed": obs, "tags": dict(tags0, site="shape")}
-        if obs["resid"] > 1e-7 * max(1.0, obs["condV"]):
+        if not (obs["resid"] <= 1e-7 * max(1.0, obs["condV"])):          # (not <=: a NaN residual is a failure, not a pass)
             return {"expected": "v·P = λ·v for the reported eigenvector", "observed": obs, "tags": dict(tags0, site="eigenvector_residual")}
         if not obs.get("member_ok", True):
             return {"expected": "member i of the composite answer = the single-object answer for member i", "observed": obs,
@@ -1206,7 +1229,7 @@ def judge_eig_o(inp, obs, lr):
             return {"expected": f"eigenvalue {inp['eigenvalue']}", "observed": obs, "tags": dict(tags0, site="eigenvalue")}
         if tags0["eigenvalue"] == "none" and obs["zero_units"]:
             return {"expected": "an eigenvector for every unit", "observed": obs, "tags": dict(tags0, site="zero_vector")}
-    if obs["offdiag"] > 1e-7 * max(1.0, obs["condV"]):
+    if not (obs["offdiag"] <= 1e-7 * max(1.0, obs["condV"])):
         return {"expected": "M.inv() @ T @ M diagonal", "observed": obs, "tags": dict(tags0, site="diagonalize")}
     return None
 
